@@ -25,6 +25,7 @@ ANALYTIC = {"dynamics": [{"expression": "g' = -g/2", "initial_value": "1"}]}
 MALFORMED = {"dynamics": [{"expression": "x' = -x", "initial_values": {"x": "1", "x'": "0"}}]}
 SYSEXIT = {"dynamics": [{"expression": "x'' = -x + 1", "initial_values": {"x": "1", "x'": "0"}}]}
 
+API_KINDS = ("valid", "analytic", "malformed_system", "sysexit_system", "empty_system", "no_equations", "only_parameters")
 PATHS = ["in.json", "in.v2.json", "sub/in.json", "some.dir/input", "some.dir/in.json", "noext", "a.b/c.d/e.f.json", "./x.json"]
 
 
@@ -157,10 +158,14 @@ def run(ctx):
     for kind, content in (("missing_file", None), ("invalid_json", "{ not json"), ("malformed_system", json.dumps(MALFORMED)), ("sysexit_system", json.dumps(SYSEXIT)), ("empty_file", "")):
         for path in ("in.json", "some.dir/input"):
             jobs.append({"kind": kind, "spec": base, "path": path, "content": content, "flags": render_flags(base, ["dsc"])})
+    # valid inputs whose answer is the empty list (no equations at all)
+    for kind, content in (("empty_system", "{}"), ("no_equations", json.dumps({"dynamics": []})), ("only_parameters", json.dumps({"dynamics": [], "parameters": {"tau": "2"}}))):
+        for spec in (base, {"dsc": True, "das": True, "pe": [], "ll": "DEBUG"}):
+            jobs.append({"kind": kind, "spec": spec, "path": rng.choice(PATHS), "content": content, "flags": render_flags(spec, ["ll", "dsc", "pe", "das"])})
     with ThreadPoolExecutor(max_workers=C.NPROC) as ex:
         cli = list(ex.map(cli_run, jobs))
-    api_cases = [{"content": j["content"], "kwargs": expected_kwargs(j["spec"])} for j in jobs if j["kind"] in ("valid", "analytic", "malformed_system", "sysexit_system")]
-    api_idx = [i for i, j in enumerate(jobs) if j["kind"] in ("valid", "analytic", "malformed_system", "sysexit_system")]
+    api_cases = [{"content": j["content"], "kwargs": expected_kwargs(j["spec"])} for j in jobs if j["kind"] in API_KINDS]
+    api_idx = [i for i, j in enumerate(jobs) if j["kind"] in API_KINDS]
     chunks = [api_cases[i::8] for i in range(8)]
     ares = C.run_tasks([{"fn": "c16.api_run", "cases": ch} for ch in chunks if ch], timeout=600)
     api = {}
